@@ -20,11 +20,13 @@ type trigEvent struct {
 }
 
 type trigState struct {
-	Name    string
-	Col     int
-	Dropped bool
-	Events  []trigEvent
-	Late    int // calls received after DropTrigger
+	Name       string
+	Col        int
+	Dropped    bool
+	Events     []trigEvent
+	Late       int        // calls received after DropTrigger
+	DropOnCall *trigState // when set: the next call of this trigger drops that other trigger from inside the commit
+	Unjudged   bool       // this trigger was dropped in the middle of the current transaction's commit
 }
 
 // expectedPuts computes, per row, the values a trigger on column col must be
@@ -112,6 +114,10 @@ func TestC19(t *testing.T) {
 				}
 			}
 			for _, tr := range trigs {
+				if tr.Unjudged {
+					tr.Unjudged = false // dropped during this very commit: its calls in this transaction are not judged
+					continue
+				}
 				if tr.Dropped {
 					if tr.Late > 0 {
 						mc.fail(t, "trigger %s was called %d time(s) after DropTrigger", tr.Name, tr.Late)
@@ -259,8 +265,18 @@ func TestC19(t *testing.T) {
 				mc.logf("createTrigger %s on %s", tr.Name, sch.Cols[tr.Col].Name)
 				err := mc.C.CreateTrigger(tr.Name, sch.Cols[tr.Col].Name, func(r column.Reader) {
 					if tr.Dropped {
-						tr.Late++
+						if !tr.Unjudged {
+							tr.Late++
+						}
 						return
+					}
+					if victim := tr.DropOnCall; victim != nil {
+						tr.DropOnCall = nil
+						if !victim.Dropped {
+							mc.logf("  [trigger %s drops trigger %s from inside the commit]", tr.Name, victim.Name)
+							mc.C.DropTrigger(victim.Name)
+							victim.Dropped, victim.Unjudged = true, true
+						}
 					}
 					ev := trigEvent{Off: r.Index(), Delete: r.IsDelete()}
 					if r.IsUpsert() {
@@ -272,6 +288,26 @@ func TestC19(t *testing.T) {
 					mc.fail(t, "CreateTrigger: %v", err)
 				}
 				trigs = append(trigs, tr)
+			},
+			"armDropInsideCommit": func(t *rapid.T) {
+				// the next time trigger A is called (inside a commit), it drops trigger B on the same column
+				var live []*trigState
+				for _, tr := range trigs {
+					if !tr.Dropped {
+						live = append(live, tr)
+					}
+				}
+				for _, a := range live {
+					for _, b := range live {
+						if a != b && a.Col == b.Col && a.DropOnCall == nil {
+							a.DropOnCall = b
+							mc.logf("arm: the next call of %s drops %s", a.Name, b.Name)
+							mc.flag("drop-inside-commit-armed")
+							return
+						}
+					}
+				}
+				t.Skip("needs two live triggers on one column")
 			},
 			"dropTrigger": func(t *rapid.T) {
 				var live []*trigState
